@@ -14,7 +14,7 @@ ENC = ["cincoconfig.core.Config.to_tree", "cincoconfig.core.Config.load_tree"]
 KEYPATH = "/k/app.key"
 KEY = bytes(range(1, 33))
 BYTES = (b"", b"\x00", b"\xfe\xff", b"abc", b"YWJj")
-TEXTS = ("", "a", "Zm9v", "with space", "ünï")
+TEXTS = ("", "a", "Zm9v", "with space", "ünï-" + "long secret beyond one key length " * 2)
 
 
 def _pick(menu, i):
@@ -310,3 +310,35 @@ def _mk_real(fi: int):
 
 for _fi in range(5):
     _mk_real(_fi)
+
+
+@obligation(prop="C02", sites=("file",), encodes=["cincoconfig.core.Config.save", "cincoconfig.core.Config.load"],
+            stubs=("FakeFS",), budget={"quick": 400, "thorough": 800},
+            what="file route (save then load) for documents of every length residue: a string value padded to n "
+                 "characters, n symbolic in 0..255, binary formats bson and pickle (codecs concrete, untraced)")
+def file_route_every_length(n: int, use_pickle: bool) -> bool:
+    """
+    pre: 0 <= n <= 255
+    post: _
+    """
+    from vf.hlib.stubs import untraced
+    pad = "x" * n
+    fmt = "pickle" if use_pickle else "bson"
+    fs = FakeFS(files={KEYPATH: KEY}, dirs=["/k"])
+    with fs.patched():
+        with untraced():
+            schema = Schema()
+            schema.text = StringField(default="")
+            schema.n = IntField(default=1)
+            cfg = schema()
+            cfg.text = pad
+            cfg.save("/k/doc.bin", format=fmt)
+            fresh = schema()
+            try:
+                fresh.load("/k/doc.bin", format=fmt)
+                err = None
+            except Exception as exc:  # noqa: BLE001
+                err = exc
+            ok = err is None and asdict(fresh) == asdict(cfg)
+        hold("file", ok, lambda: "%s file with a %d-character value does not load back: %r" % (fmt, len(pad), err))
+    return True
